@@ -156,7 +156,8 @@ impl<R: Read> CharRead for CharReader<R> {
             let err = str::from_utf8(buf).expect_err("the start of buf should be invalid utf-8");
             assert_eq!(err.valid_up_to(), 0, "the error should be a prefix");
 
-            let invalid_prefix = err.error_len().expect("we should have at least 4 bytes");
+            // a sequence that is cut short by the end of the input is bad as a whole
+            let invalid_prefix = err.error_len().unwrap_or(buf.len());
 
             let bad_bytes = buf[..invalid_prefix].to_vec();
 
@@ -208,7 +209,7 @@ impl<R: Read> CharRead for CharReader<R> {
             // we need to read more data from the underlying stream
             // so that we can determine its validity
 
-            if self.buf.len() > 4 {
+            if self.pos > 4 {
                 // keep a prefix of 4 bytes so that we can put back at least one char
                 self.buf.drain(4..self.pos);
                 self.pos = 4;
@@ -216,7 +217,7 @@ impl<R: Read> CharRead for CharReader<R> {
 
             match self.read_chunk() {
                 Err(e) => return Some(Err(e)),
-                Ok(0) => return Some(Err(bad_bytes_error(&self.buf))),
+                Ok(0) => return Some(Err(bad_bytes_error(&self.buf[self.pos..]))),
                 Ok(_) => {
                     // successfully filled the buffer with another chunk of data
                 }
